@@ -44,6 +44,7 @@ const (
 func (st *State) newChan(capacity int, et types.Type) *ChanObj {
 	o := st.newObj(chSlots, []Value{Agg{}, false, uint64(0), uint64(0), uint64(0), false}, "chan")
 	o.shared = true
+	o.syncObj = true
 	return &ChanObj{id: o.id, cap: capacity, etype: et, st: o}
 }
 
@@ -642,13 +643,5 @@ func (st *State) describeBlocked() string {
 	}
 	return s
 }
-
-// ---------- data race monitor hooks (vector clocks) ----------
-
-func (st *State) hbFork(parent, child *Goroutine)  {}
-func (st *State) hbExit(g *Goroutine)              {}
-func (st *State) hbAcquire(o *Obj)                 {}
-func (st *State) hbRelease(o *Obj)                 {}
-func (st *State) raceAccess(p Pointer, n int, w bool) {}
 
 var _ = token.ADD
